@@ -3,7 +3,7 @@
 # run the quick check, revert, touch the files, print the verdict and the first failing cases.
 P=$1; p=$(echo $P | tr A-Z a-z)
 mkdir -p /verif/seeded/$P
-for f in patch.diff demo_test.rs demo_output.txt meta.json; do cp /tmp/mutout-$p/$f /verif/seeded/$P/ 2>/dev/null; done
+for f in patch.diff demo_test.rs demo_output.txt meta.json; do [ -e /verif/seeded/$P/$f ] || cp /tmp/mutout-$p/$f /verif/seeded/$P/ 2>/dev/null; done
 git -C /repo worktree remove --force /tmp/mut-$p 2>/dev/null
 cd /repo && git apply /verif/seeded/$P/patch.diff || { echo "PATCH DOES NOT APPLY"; exit 2; }
 files=$(git -C /repo apply --numstat /verif/seeded/$P/patch.diff | awk '{print $3}')
